@@ -1,5 +1,6 @@
 // lockyield rewrites Go source files so that every statement `x.Lock()` / `x.RLock()` is preceded by a
-// verifhook.Yield("lock:<file>", "<line>", nil) call: a scheduling point at every lock acquisition of the file.
+// verifhook.Yield("lock:<file>", "<line>", nil) call: a scheduling point at every lock acquisition of the file
+// (plus "locked:" / "unlocked:" marks from which the simulator knows whether the goroutine holds a lock).
 // It works on a scratch copy of the repository made by bin/check; /repo itself is never touched.
 //
 //	lockyield <copy-root> <relative-file>...
@@ -15,38 +16,78 @@ import (
 	"os"
 	"path/filepath"
 	"strconv"
+	"strings"
 )
 
 const hookPath = "github.com/ipfs/go-graphsync/verifhook"
 
-func isLockCall(s ast.Stmt) bool {
-	es, ok := s.(*ast.ExprStmt)
-	if !ok {
-		return false
+// lockKind classifies a statement: "lock" for x.Lock()/x.RLock(), "unlock" for x.Unlock()/x.RUnlock(),
+// "deferunlock" for defer x.Unlock()/x.RUnlock().
+func lockKind(s ast.Stmt) string {
+	var call *ast.CallExpr
+	deferred := false
+	switch st := s.(type) {
+	case *ast.ExprStmt:
+		c, ok := st.X.(*ast.CallExpr)
+		if !ok {
+			return ""
+		}
+		call = c
+	case *ast.DeferStmt:
+		call, deferred = st.Call, true
+	default:
+		return ""
 	}
-	call, ok := es.X.(*ast.CallExpr)
-	if !ok || len(call.Args) != 0 {
-		return false
+	if len(call.Args) != 0 {
+		return ""
 	}
 	sel, ok := call.Fun.(*ast.SelectorExpr)
-	return ok && (sel.Sel.Name == "Lock" || sel.Sel.Name == "RLock")
+	if !ok {
+		return ""
+	}
+	switch sel.Sel.Name {
+	case "Lock", "RLock":
+		if !deferred {
+			return "lock"
+		}
+	case "Unlock", "RUnlock":
+		if deferred {
+			return "deferunlock"
+		}
+		return "unlock"
+	}
+	return ""
 }
 
+func hook(kind, site string, line int) *ast.CallExpr {
+	return &ast.CallExpr{
+		Fun: &ast.SelectorExpr{X: ast.NewIdent("verifhook"), Sel: ast.NewIdent("Yield")},
+		Args: []ast.Expr{
+			&ast.BasicLit{Kind: token.STRING, Value: strconv.Quote(kind + ":" + site)},
+			&ast.BasicLit{Kind: token.STRING, Value: strconv.Quote(strconv.Itoa(line))},
+			ast.NewIdent("nil"),
+		}}
+}
+
+// rewriteList puts a scheduling point ("lock:") before every lock acquisition and bookkeeping marks after every
+// acquisition ("locked:") and release ("unlocked:"; for a deferred release, a deferred mark registered before it,
+// so that it runs after it). The simulator keeps a per-goroutine count from the marks and uses a "lock:" point
+// only where the goroutine holds no lock of an instrumented file.
 func rewriteList(fset *token.FileSet, site string, list []ast.Stmt, n *int) []ast.Stmt {
 	var out []ast.Stmt
 	for _, s := range list {
-		if isLockCall(s) {
-			line := fset.Position(s.Pos()).Line
-			out = append(out, &ast.ExprStmt{X: &ast.CallExpr{
-				Fun: &ast.SelectorExpr{X: ast.NewIdent("verifhook"), Sel: ast.NewIdent("Yield")},
-				Args: []ast.Expr{
-					&ast.BasicLit{Kind: token.STRING, Value: strconv.Quote("lock:" + site)},
-					&ast.BasicLit{Kind: token.STRING, Value: strconv.Quote(strconv.Itoa(line))},
-					ast.NewIdent("nil"),
-				}}})
+		line := fset.Position(s.Pos()).Line
+		switch lockKind(s) {
+		case "lock":
+			out = append(out, &ast.ExprStmt{X: hook("lock", site, line)}, s, &ast.ExprStmt{X: hook("locked", site, line)})
 			*n++
+		case "unlock":
+			out = append(out, s, &ast.ExprStmt{X: hook("unlocked", site, line)})
+		case "deferunlock":
+			out = append(out, &ast.DeferStmt{Call: hook("unlocked", site, line)}, s)
+		default:
+			out = append(out, s)
 		}
-		out = append(out, s)
 	}
 	return out
 }
@@ -57,7 +98,15 @@ func main() {
 		os.Exit(2)
 	}
 	root := os.Args[1]
-	for _, rel := range os.Args[2:] {
+	for _, arg := range os.Args[2:] {
+		// "file.go#Func1,Func2": only inside those functions (methods by bare name)
+		rel, only := arg, map[string]bool(nil)
+		if i := strings.Index(arg, "#"); i >= 0 {
+			rel, only = arg[:i], map[string]bool{}
+			for _, f := range strings.Split(arg[i+1:], ",") {
+				only[f] = true
+			}
+		}
 		path := filepath.Join(root, rel)
 		fset := token.NewFileSet()
 		f, err := parser.ParseFile(fset, path, nil, parser.ParseComments)
@@ -67,6 +116,9 @@ func main() {
 		}
 		n := 0
 		ast.Inspect(f, func(nd ast.Node) bool {
+			if fd, ok := nd.(*ast.FuncDecl); ok && only != nil && !only[fd.Name.Name] {
+				return false
+			}
 			switch b := nd.(type) {
 			case *ast.BlockStmt:
 				b.List = rewriteList(fset, rel, b.List, &n)
